@@ -46,6 +46,8 @@ def coq_type(t):
         return 'oslice'
     if t == 'N':    # the value None, known statically (spec option "static_kinds")  [C14]
         return 'unit'
+    if t == 'A2':   # a 2-D float array read by index, data(l, p)  [C09]
+        return '(Z -> Z -> T)'
     if isinstance(t, tuple) and t[0] == 'T':
         return '(' + ' * '.join(coq_type(x) for x in t[1:]) + ')'
     if isinstance(t, tuple) and t[0] == 'R':   # named record
@@ -692,6 +694,106 @@ class Fn:
         return head + textwrap.indent(body, "  ") + "."
 
 
+# [C09] ----- Cython kernels: `cdef inline void f(typed params) noexcept nogil:` with a typed-declaration prologue and a
+# final loop over the bands `for i in range(z_size): res[i] = EXPR(data[i, a, b])` (or plain `res[k] = EXPR` stores).
+# Rewritten, fail-closed, to the Python function of ONE band: def f(params): ...; return EXPR(data(a, b)).
+def cython_to_python(src, qualname):
+    lines = src.split("\n")
+    head = None
+    for k, ln in enumerate(lines):
+        if re.match(r"^c?p?def\s+(?:inline\s+)?(?:[\w\[\], :.]+?\s+)?%s\s*\(" % re.escape(qualname), ln):
+            head = k
+            break
+    if head is None:
+        raise Untranslatable("cython function %s not found" % qualname)
+    sig = lines[head]
+    k = head
+    while sig.count("(") > sig.count(")") or not sig.rstrip().endswith(":"):
+        k += 1
+        sig += " " + lines[k].strip()
+    m = re.match(r"^c?p?def\s+(?:inline\s+)?(?:[\w\[\], :.]+?\s+)?%s\s*\((.*)\)\s*(?:noexcept)?\s*(?:nogil)?\s*:\s*$" % re.escape(qualname), sig)
+    if not m:
+        raise Untranslatable("cython signature of %s" % qualname)
+    params = []
+    depth, cur = 0, ""
+    for ch in m.group(1):
+        if ch in "[(":
+            depth += 1
+        if ch in "])":
+            depth -= 1
+        if ch == "," and depth == 0:
+            params.append(cur)
+            cur = ""
+        else:
+            cur += ch
+    params.append(cur)
+    names = []
+    for prm in params:
+        mm = re.search(r"(\w+)\s*(?:=.*)?$", prm.strip())
+        if not mm:
+            raise Untranslatable("cython parameter %r" % prm)
+        names.append(mm.group(1))
+    body = []
+    k += 1
+    while k < len(lines) and (not lines[k].strip() or lines[k].startswith((" ", "\t"))):
+        body.append(lines[k])
+        k += 1
+    # join physical lines of one statement (open brackets)
+    stmts, cur = [], ""
+    for ln in body:
+        code = ln.split("#")[0].rstrip()
+        if not code.strip():
+            continue
+        cur = (cur + " " + code.strip()) if cur else code
+        if cur.count("(") + cur.count("[") == cur.count(")") + cur.count("]"):
+            stmts.append(cur)
+            cur = ""
+    if cur:
+        raise Untranslatable("unbalanced brackets in %s" % qualname)
+    out, stores = [], {}
+    k = 0
+    while k < len(stmts):
+        st = stmts[k]
+        ind = len(st) - len(st.lstrip())
+        t = st.strip()
+        if t.startswith("cdef "):
+            if "=" in t and not re.match(r"^cdef\s+size_t\s+z_size\s*=\s*res\.shape\[0\]$", t):
+                raise Untranslatable("cdef with initialiser: %s" % t)
+            k += 1
+            continue
+        t = re.sub(r"<\s*\w+\s*>", "", t)          # C casts
+        mm = re.match(r"^for\s+(\w+)\s+in\s+range\(z_size\)\s*:$", t)
+        if mm:
+            if k + 2 != len(stmts):
+                raise Untranslatable("band loop is not the last statement of %s" % qualname)
+            i = mm.group(1)
+            inner = re.sub(r"<\s*\w+\s*>", "", stmts[k + 1].strip())
+            m2 = re.match(r"^res\[%s\]\s*=\s*(.*)$" % i, inner)
+            if not m2:
+                raise Untranslatable("band loop body: %s" % inner)
+            expr = re.sub(r"data\[\s*%s\s*,([^\]]*)\]" % i, r"data(\1)", m2.group(1))
+            if re.search(r"\b%s\b" % i, expr):
+                raise Untranslatable("band index used outside data[i, ., .]")
+            out.append(" " * ind + "return " + expr)
+            k += 2
+            continue
+        mm = re.match(r"^res\[(\d+)\]\s*=\s*(.*)$", t)
+        if mm:
+            if ind != len(stmts[0]) - len(stmts[0].lstrip()):
+                raise Untranslatable("conditional store into res")
+            stores[int(mm.group(1))] = mm.group(2)
+            k += 1
+            continue
+        out.append(" " * ind + t)
+        k += 1
+    if stores:
+        if sorted(stores) != list(range(len(stores))):
+            raise Untranslatable("stores into res are not res[0..n-1]")
+        ind = len(stmts[0]) - len(stmts[0].lstrip())
+        out.append(" " * ind + "return (" + ", ".join(stores[j] for j in range(len(stores))) + ")")
+    return "def %s(%s):\n%s\n" % (qualname, ", ".join(names), "\n".join(out))
+
+
 def find_function(tree, qualname):
     parts = qualname.split(".")
     body = tree.body
@@ -722,6 +824,8 @@ def translate_module(repo, modname, mod):
     for spec in mod["functions"]:
         path = repo.rstrip("/") + "/" + spec["source"]
         src = open(path).read()
+        if spec.get("cython"):      # [C09] off by default: no effect on other specs
+            src = cython_to_python(src, spec["qualname"])
         tree = ast.parse(src)
         fdef = find_function(tree, spec["qualname"])
         fn = Fn(spec, fdef)
